@@ -248,7 +248,10 @@ pub fn check_write(c: &WriteCase, st: &mut Stats) -> Result<(), String> {
 // ---------------------------------------------------------------------------------------
 
 fn line_strategy() -> impl Strategy<Value = Vec<u8>> {
-    let valid = || (addr_strategy(), byte_strategy(), proptest::collection::vec(byte_strategy(), 0..20)).prop_map(|(a, t, d)| ref_encode(a, t, &d));
+    let valid = || {
+        let len = prop_oneof![10 => 0usize..20, 1 => proptest::sample::select(vec![127usize, 254, 255])];
+        (addr_strategy(), byte_strategy(), len.prop_flat_map(|n| proptest::collection::vec(byte_strategy(), n))).prop_map(|(a, t, d)| ref_encode(a, t, &d))
+    };
     prop_oneof![
         8 => valid(),
         1 => valid().prop_map(|mut v| { let n = v.len(); v[n - 1] = if v[n - 1] == b'0' { b'1' } else { b'0' }; v }), // bad checksum
@@ -394,6 +397,25 @@ pub fn run(ctx: &Ctx) {
         Ok(())
     });
     ctx.part_done("write-fault-at-every-call", true, json!("sink accepting 1/2/7/all bytes per call with Ok(0), 3 hard errors or Interrupted at every call index 0..48"));
+
+    // back-to-back frames of every data length 0..=255 (CRLF and bare LF), read in 7-byte and 1-byte fragments
+    par_range(ctx, "read-every-length-back-to-back", 256, |len, st| {
+        for crlf in [true, false] {
+            let mut stream = vec![];
+            for k in 0..3u8 {
+                stream.extend_from_slice(&ref_encode(0x0100 + len as u16, k, &vec![k ^ 0x5A; len as usize]));
+                stream.extend_from_slice(if crlf { b"\r\n" } else { b"\n" });
+            }
+            stream.extend_from_slice(b"tail");
+            for serve in [1usize, 7, 4096] {
+                let c = ReadCase { stream: stream.clone(), script: vec![RStep::Serve(serve); 8], timeout_at_end: false };
+                check_read(&c, st).map_err(|m| (serde_json::to_value(&c).unwrap(), m))?;
+            }
+        }
+        st.nontrivial_enumerated(6);
+        Ok(())
+    });
+    ctx.part_done("read-every-length-back-to-back", true, json!("3 back-to-back frames of every data length 0..=255 x {CRLF, LF} x 3 read sizes"));
 
     run_generated(ctx, "read", ctx.tier.pick(150_000, 3_000_000), read_case_strategy, |c, st| check_read(c, st));
     run_generated(ctx, "write", ctx.tier.pick(100_000, 2_000_000), write_case_strategy, |c, st| check_write(c, st));
